@@ -366,7 +366,14 @@ class Interp:
             raise Unsupported("symbolic index outside a path explorer")
         rng = range(lo if lo is not None else -c.bound, (hi if hi is not None else c.bound) + 1)
         for k in rng:
-            if c.branch(v.t == self.const(k, v.ty)):
+            cond = v.t == self.const(k, v.ty)
+            # infeasible candidates are skipped without spending one of the path's decisions (the feasibility answers are
+            # a function of the path condition, so re-execution sees the same sequence)
+            if c.pos >= len(c.prefix) and not c.sat(cond):
+                continue
+            if c.pos < len(c.prefix) and not c.prefix_feasible(cond):
+                continue
+            if c.branch(cond):
                 return k
         raise Cut("index>bound")
 
